@@ -112,7 +112,7 @@ fn scenario(words: &[u16]) -> Scenario {
         // a descendant of A: its resources are part of A's certificate, it contributes nothing when A is rejected
         cas.push(Ca { parent: Some(1), key: 3, module: 0, not_after: 86400 * 365, cert_fault: None, versions: vec![mk_ver(&mut d, vec![roa_a.clone()], None)], extra_res: None });
     }
-    let steps = vec![Step { publish: vec![0; cas.len()], fail_modules: vec![], offline: false, stale: None }];
+    let steps = vec![Step { publish: vec![0; cas.len()], fail_modules: vec![], offline: false, stale: None, foreign_tal_key: vec![] }];
     Scenario { cfg, cas, steps }
 }
 
